@@ -179,3 +179,13 @@ Theorem rounding_bound : forall (u : Q) (rnd : Q -> Q) (L spf : Z) (value lv hv 
          - (inject_Z L + (value - lv) / (hv - lv)) / inject_Z spf)
    <= u * (3 * Qabs (inject_Z L) + 11) / inject_Z spf)%Q.
 Proof. intros u rnd L spf value lv hv H0 H1 H2. exact (framenum_rounding_bound u H0 H1 rnd H2 L spf value lv hv). Qed.
+
+(* the same for descending data (high_v <= value <= low_v), rounding being odd and a function of the value *)
+Theorem rounding_bound_descending : forall (u : Q) (rnd : Q -> Q) (L spf : Z) (value lv hv : Q),
+  (0 <= u)%Q -> (u <= 1 # 8)%Q -> (forall x, Qabs (rnd x - x) <= u * Qabs x)%Q ->
+  (forall x y, x == y -> rnd x == rnd y)%Q -> (forall x, rnd (- x) == - rnd x)%Q ->
+  (0 < spf)%Z -> (hv <= value)%Q -> (value <= lv)%Q -> (hv < lv)%Q ->
+  (Qabs (rnd (rnd (inject_Z L + rnd (rnd (value - lv) / rnd (hv - lv))) / inject_Z spf)
+         - (inject_Z L + (value - lv) / (hv - lv)) / inject_Z spf)
+   <= u * (3 * Qabs (inject_Z L) + 11) / inject_Z spf)%Q.
+Proof. intros u rnd L spf value lv hv H0 H1 H2 H3 H4. exact (framenum_rounding_bound_desc u H0 H1 rnd H2 H3 H4 L spf value lv hv). Qed.
